@@ -41,6 +41,8 @@ CallFailed(o) ==
      \cup (IF C!C08_counters(n) THEN {} ELSE {"C08_counters"})
      \cup (IF o.pure THEN {} ELSE {"C08_pure"})
      \cup (IF C18_cells(o) THEN {} ELSE {"C18_cells"})
+     \* an exception raised by flowdyn on an admissible call is a failed call, whatever else the record says
+     \cup (IF o.raised = "" THEN {} ELSE {"C07_raised", "C08_raised"})
 
 (* relations between the calls of a family (C08 i-iii) *)
 Traj(o) == [k \in 1..Len(o.traj) |-> <<o.traj[k].t, o.traj[k].id>>]
